@@ -145,6 +145,29 @@ add("C12",
     "by value.",
     engine="hypothesis-stateful")
 
+add("C13",
+    "property-based testing: Hypothesis-generated replicate arrays; independent re-implementation "
+    "of the documented quantile/BC/BCa formulas as reference, plus metamorphic corollaries "
+    "(NaN rows, permutation, affine maps, nesting, per-component independence)",
+    "Exploration: limits agree with a stdlib-only re-implementation of the documented formulas "
+    "to 1e-9*scale for every generated (replicates, estimate, alpha, method), including constant, "
+    "tied, skewed, outlier-laden and NaN-containing data and estimates outside the range; derived "
+    "claims are asserted separately so that a wrong reference cannot hide behind them.",
+    "statistics.NormalDist / math.erfc as normal reference; BCa corollaries only where "
+    "|a*(z0+z_alpha)| < 0.99; affine corollary only when the map is exact on the data.")
+
+add("C14",
+    "property-based testing: Hypothesis-generated objects/metrics/configurations; model-based "
+    "oracle with a deterministic counting sampler, seeded replay differential for built-in "
+    "samplers, differential against utils.bootstrap_ci for the CI wiring, identity-sampler collapse",
+    "Exploration: row j is the metric of the j-th sample (counting sampler), built-in samplers "
+    "are replayed by hand under the same seed and must give the same rows, bootstrap_ci equals the "
+    "documented formula applied to those rows with the original's metric, collapses under the "
+    "identity sampler for all three methods, and results are reproducible per seed and differ "
+    "across seeds.",
+    "utils.bootstrap_ci is trusted here as the formula (it is C13's subject); 'different seeds "
+    "give different rows' has collision probability < 1e-10 by construction of the metric.")
+
 NOT_YET = {}
 
 
